@@ -30,7 +30,8 @@ Walk(evs, k, tb) ==         \* "" if every event obeys the discipline, else the 
          ELSE Walk(evs, k + 1, [Append(tb, [mode |-> e.mode, kind |-> e.kind, last |-> 0, minmode |-> e.minmode])
                                   EXCEPT ![e.par].last = e.f])
        ELSE \* chain(from = e.f, to = e.par)
-         IF tb[e.f].last # e.par THEN "ChainLast"
+         IF e.f > Len(tb) \/ e.par > Len(tb) THEN "numbering"
+         ELSE IF tb[e.f].last # e.par THEN "ChainLast"
          ELSE Walk(evs, k + 1, [tb EXCEPT ![e.par].mode = ParentMode(tb, e.f)])
 
 Check ==
